@@ -190,6 +190,24 @@ class C01(F.PropCheck):
                 v.append('delivered packet #%d (rr=%d call=%d) is not a frame of the stream (stream has %d well-formed frames before %s)' % (i, d[0], d[1], len(exp), st)); break
             if d != exp[i]:
                 v.append('delivered packet #%d differs from frame #%d of the stream (rr %d vs %d, %d vs %d payload bytes)' % (i, i, d[0], exp[i][0], len(d[3]), len(exp[i][3]))); break
+        # buffered input stays below the receive limit: reference simulation of staging + parser occupancy (one pop per
+        # iterate); only for streams without malformed frames.  When the occupancy would reach BUFFER_MAX the append must
+        # be refused and reported (restart) - a run that carries on has buffered more than the limit.
+        if not v and st == 'inc' and not restarted:
+            c = consts(); stage = b''; buf = b''; peak = 0
+            for (k, ints, data) in case.evs:
+                if k == 'RECV':
+                    if len(data) == 0 or len(data) > c['RECVBUFF_MAX'] - len(stage): continue
+                    stage += data
+                n = min(c['SRPC_BUFFER'], len(stage)); chunk, stage = stage[:n], stage[n:]
+                if n > 0:
+                    if len(buf) + n >= c['BUFFER_MAX']:
+                        v.append('parser buffer holds %d bytes (limit %d): the device neither refused the input nor reported an error' % (len(buf) + n, c['BUFFER_MAX']))
+                        break
+                    buf += chunk
+                fr, st1 = ref_frames(buf)
+                if fr:
+                    f0 = fr[0]; buf = buf[(c['SDP_SIZE'] - c['MAX_DATA_SIZE']) + len(f0[3]) + len(bytes(c['TAG'])):]
         nticks_tail = 0
         for (k, _, _) in reversed(case.evs):
             if k == 'TICK': nticks_tail += 1
